@@ -4,7 +4,9 @@
 //! `ObjectServer` of a real p2p connection pair: ops {at(p, I), remove::<I>(p), lookup} over paths
 //! {/, /a, /a/b, /c} x interfaces {I1, I2}. Quick: the FULL history tree (no state merging) to
 //! depth 4. Thorough: full tree to depth 5, then breadth-first search with merging by canonical
-//! observation until no new state appears.
+//! observation until no new state appears. A second path universe {/, /a/b, /a/b/d, /a/bc}
+//! (unregistered intermediate node, three levels, prefix-named sibling) gets its own full tree to
+//! depth 5 (quick: one interface).
 //!
 //! The oracle is transition-local: the registry is probed before and after the last operation of
 //! every history (lookup through `ObjectServer::interface`, a method call and a property read over
@@ -237,7 +239,7 @@ fn join(s: &BTreeSet<&str>) -> String {
 /// Compare one observed transition with the model. Returns the violations and an outcome class.
 pub(crate) fn check(history: &[Op], pre: Option<&Obs>, ret: &Result<OpRet, (String, String)>, post: &Result<Obs, (String, String)>) -> (Vec<Violation>, String) {
     let mut out = vec![];
-    let replay = json!({"history": history_json(history)});
+    let replay = json!({"history": history_json(history), "path_universe": osrv::selected_paths()});
     let hs = show_history(history);
     let op = history.last().cloned();
     let s: Model = pre.map(|o| Obs::set_of(&o.lookup)).unwrap_or_default();
@@ -475,6 +477,34 @@ pub fn main(args: &Args) -> i32 {
     report.set("full_tree_depth", json!(depth));
     report.set("full_tree_histories", json!(tree_hist));
 
+    // Phase 1b: the second path universe {/, /a/b, /a/b/d, /a/bc}: an intermediate node that is
+    // never registered itself, three levels below the root, and two siblings of which one's name
+    // is a string prefix of the other's. Quick: one interface, depth 5; thorough: both, depth 5.
+    {
+        osrv::select_paths(1);
+        let alpha1: Vec<Op> = if args.tier == vcommon::Tier::Quick {
+            alpha.iter().copied().filter(|o| !matches!(o, Op::At { i: 1, .. } | Op::Remove { i: 1, .. })).collect()
+        } else {
+            alpha.clone()
+        };
+        let depth1 = 5usize;
+        let total = enumerate::count_strings(alpha1.len(), depth1);
+        osrv::par_items(total, 64, &report, &cnt.states, |n, acc| {
+            let mut idx = vec![];
+            enumerate::nth_string(alpha1.len(), n, &mut idx);
+            let h = decode(&alpha1, &idx);
+            let ex = run_history(&h, Tags::Given);
+            let want = hash64(&n) % (total as u64 / 10).max(1) == 0;
+            absorb(&report, &cnt, &ex, acc, want);
+        });
+        let h1 = cnt.histories.load(std::sync::atomic::Ordering::Relaxed) - tree_hist;
+        report.set(
+            "second_universe",
+            json!({"paths": osrv::PATH_SETS[1], "alphabet": alpha1.iter().map(|o| o.show()).collect::<Vec<_>>(), "full_tree_depth": depth1, "full_tree_histories": h1}),
+        );
+        osrv::select_paths(0);
+    }
+
     // Phase 2 (thorough): merge by canonical observation and continue until nothing new appears.
     let mut merged = json!(null);
     if args.tier == vcommon::Tier::Thorough {
@@ -566,9 +596,18 @@ pub fn main(args: &Args) -> i32 {
 
 fn replay(path: &str) -> i32 {
     let v = vcommon::load_replay(path);
-    let hist = history_from_json(&v["replay"]["history"])
-        .or_else(|| history_from_json(&v["history"]))
+    // the history names its paths; pick the universe that contains all of them
+    let parse = || history_from_json(&v["replay"]["history"]).or_else(|| history_from_json(&v["history"]));
+    if let Some(u) = v["replay"]["path_universe"].as_u64().or(v["path_universe"].as_u64()) {
+        osrv::select_paths(u as usize);
+    }
+    let hist = parse()
+        .or_else(|| {
+            osrv::select_paths(1);
+            parse()
+        })
         .unwrap_or_else(|| vcommon::machinery_failure("replay file has no history"));
+    println!("path universe: {:?}", osrv::PATH_SETS[osrv::selected_paths()]);
     println!("history: {}", show_history(&hist));
     let mut bad = 0;
     for n in 0..=hist.len() {
